@@ -345,8 +345,11 @@ class Scenario:
         self.block_at.add((name, pos))
         return pos + 8
 
-    def options(self):
-        o = ["-d", None, "-c", self.coin]
+    def options(self, d=None):
+        sp = self.env.get("spelling")
+        if sp:
+            return self._spelt(d, sp)
+        o = ["-d", d, "-c", self.coin]
         if self.start:
             o += ["-s", str(self.start)]
         if self.stop is not None:
@@ -355,6 +358,31 @@ class Scenario:
             o += ["--verify"]
         o += ["-v"] * self.verbose
         return o
+
+    def _spelt(self, d, seed):
+        """the same options in another of the spellings the command line accepts: long names, `--name=value`, attached short values
+        (`-s5`), any order, numbers with a sign or leading zeros (`u64::from_str` takes both), an explicit `-s 0`, the default coin
+        left out, `-vv` in one word"""
+        import random
+        r = random.Random(seed)
+        def opt(short, long_, val):
+            k = r.randrange(4)
+            return [[short, val], [long_, val], [long_ + "=" + val], [short + val]][k]
+        def num(n):
+            return r.choice([str(n), "+%d" % n, "00%d" % n, str(n)])
+        groups = [opt("-d", "--blockchain-dir", d)]
+        if self.coin != "bitcoin" or r.random() < 0.5:
+            groups.append(opt("-c", "--coin", self.coin))
+        if self.start or r.random() < 0.5:
+            groups.append(opt("-s", "--start", num(self.start)))
+        if self.stop is not None:
+            groups.append(opt("-e", "--end", num(self.stop)))
+        if self.verify:
+            groups.append(["--verify"])
+        if self.verbose:
+            groups += [["-" + "v" * self.verbose]] if r.random() < 0.5 else [["-v"]] * self.verbose
+        r.shuffle(groups)
+        return [x for g in groups for x in g]
 
     # --- model side -------------------------------------------------------------------------
     def model_lines(self):
@@ -426,17 +454,17 @@ class Scenario:
         for n, data in left.items():
             with open(os.path.join(dump, n), "wb") as fh:
                 fh.write(data)
-        o = self.options()
-        o[1] = d
+        dir_arg = d
         dump_arg, cwd = dump, None
         if self.env.get("cwd"):
             # started from another directory; the dump folder (and the data directory) are named relative to it
             cwd = os.path.dirname(os.path.abspath(dump))
             dump_arg = "./" + os.path.basename(dump) if self.env["cwd"] == "dot" else os.path.basename(dump)
             if os.path.dirname(os.path.abspath(d)) == cwd:
-                o[1] = os.path.basename(d)
+                dir_arg = os.path.basename(d)
         if self.env.get("slash"):
-            o[1], dump_arg = o[1] + "/", dump_arg + "/"
+            dir_arg, dump_arg = dir_arg + "/", dump_arg + "/"
+        o = self.options(dir_arg)
         cmd = [C.IMPL] + o + [self.callback] + ([dump_arg] if self.callback in ("csvdump", "unspentcsvdump", "balances") else [])
         if wrapper:
             cmd = wrapper + cmd
